@@ -108,7 +108,10 @@ def comparable(values, form, perm=None):
 
 def bump(inputs, key, delta):
     out = dict(inputs)
-    cur = Decimal(out.get(key, '0').strip() or '0')
+    try:
+        cur = Decimal(out.get(key, '0').strip() or '0')
+    except ArithmeticError:
+        return None
     out[key] = str(cur + Decimal(str(delta)))
     return out
 
@@ -170,7 +173,10 @@ def oracle_c16(r, rng, budget):
     ded_inputs += [k for k in inputs if k.split('.')[0].startswith('1098:') and k.split('.')[1] == 'box_1']
     for key in rng.sample(ded_inputs, min(len(ded_inputs), 3)):
         for delta in rng.sample([1, 100, 2500, 12000, 40000], 2):
-            var = so.rerun_with(r, file_inputs=bump(inputs, key, delta))
+            bumped = bump(inputs, key, delta)
+            if bumped is None:
+                continue
+            var = so.rerun_with(r, file_inputs=bumped)
             if var['exception'] is None and var['ok']:
                 pairs += 1
                 tax1 = cents(sc.values_of(var).get('1040.24', 0.0))
